@@ -99,7 +99,7 @@ REG.update({
         "tests": [{"pkg": "./chainsim", "run": "TestC09", "quick": 400, "thorough": 30000, "chunk": 25}],
         "rule": S5_RULE + ("Byzantine op: the node's honest zone-order candidate block is copied through the wire codec, ONE parent-derived header field is changed (number, difficulty +-1, gas/state limit, base fee, prime terminus hash/number, "
                  "expansion number, parent entropy / delta / uncled delta, uncled entropy, time before parent, time far in the future, parent hash = grandparent), the block is RE-SEALED with real blake3 work and handed to the node; oracle: never appended-and-executed-as-head, and chain state unchanged. "
-                 "Plus on every honestly accepted edge: accumulated entropy strictly increases, recorded parent entropy equals the parent's accumulated entropy, order recomputed later equals the order at mining time." + " Added after seeding wave 4: timestamps 2^63, 2^63+now, 2^64-1-k; for every dominant-order block the view its region / prime chain accepted is copied with its number in that context changed (+1, -1, 0, +1000), or with one of the other fields that context derives from the parent changed (parent entropy, parent delta / uncled delta entropy, region / prime state root, efficiency score, threshold count, eligible slices, miner difficulty), re-sealed to the same order and given to that chain's HeaderChain.VerifyHeader, which must refuse it while the unchanged copy passes."),
+                 "Plus on every honestly accepted edge: accumulated entropy strictly increases, recorded parent entropy equals the parent's accumulated entropy, order recomputed later equals the order at mining time." + " Added after seeding wave 4: timestamps 2^63, 2^63+now, 2^64-1-k; for every dominant-order block the view its region / prime chain accepted is copied with its number in that context changed (+1, -1, 0, +1000), or with one of the other fields that context derives from the parent changed (parent entropy, parent delta / uncled delta entropy, region / prime state root, efficiency score, threshold count, eligible slices, miner difficulty), re-sealed to the same order and given to that chain's HeaderChain.VerifyHeader, which must refuse it while the unchanged copy passes." + " The order of an accepted block is recomputed with the node's current expansion number set to other values and the order cache emptied (restart / eviction): it must not change."),
         "expect_probes": ["byz.difficulty+1", "byz.number+1", "byz.time-far-future", "byz.parent-entropy+1", "byz.prime-terminus-hash", "byz.base-fee+1", "reorg"],
         "components": S5_COMPONENTS,
         "assumptions": ["share-difficulty (SHA/Scrypt/KawPow) fields are not exercised: the KawPow fork regime is off in this harness", "efficiency score / threshold count / eligible-slices rewrites are observed, not judged: no property names them as derived for zone blocks",
